@@ -496,6 +496,8 @@ func init() {
 	r["PreemptOn"] = func(fr *frame, args []value) value { SC.preemptOn = true; return nil }
 	r["PreemptOff"] = func(fr *frame, args []value) value { SC.preemptOn = false; return nil }
 	r["PreemptAtUnlock"] = func(fr *frame, args []value) value { SC.unlockYield = args[0].(bool); return nil }
+	r["SpawnedFIFO"] = func(fr *frame, args []value) value { SC.spawnedFIFO = args[0].(bool); return nil }
+	r["PreemptOnlyHolding"] = func(fr *frame, args []value) value { SC.onlyHolding = args[0].(bool); return nil }
 	r["PendingTimers"] = func(fr *frame, args []value) value {
 		n := 0
 		for _, t := range SC.thr {
